@@ -1549,8 +1549,17 @@ demux_pes_packet_frame		(vbi_dvb_demux *	dx,
 
 		dx->new_frame = TRUE;
 
-		if (NULL == dx->callback)
+		if (NULL == dx->callback) {
+			/* Nothing to deliver. Do not return to the coroutine
+			   caller: vbi_dvb_demux_cor() would return 0 without
+			   consuming input, and the next call would restart
+			   this PES packet from its first data unit and end
+			   up here again, forever. */
+			if (dx->frame.sp == dx->frame.sliced_begin)
+				continue;
+
 			return VBI_ERR_CALLBACK;
+		}
 
 		n_lines = dx->frame.sp - dx->frame.sliced_begin;
 
